@@ -20,7 +20,7 @@ func init() {
 			"hash of (bitmap, i, end) for sampled ranges.",
 		Assumptions: []string{"domain as stated: i inside the bitmap, i <= end <= 64*len, end >= 1 for PrevOne"},
 		Flavours:    releaseAnd386,
-		Required: []string{"next/in-first-word", "next/after-skipped-zero-words", "next/next-word", "next/none", "next/found-but-beyond-end", "range/empty", "range/i-aligned", "range/end-aligned",
+		Required: []string{"long-run/calls>=100000-per-function", "next/in-first-word", "next/after-skipped-zero-words", "next/next-word", "next/none", "next/found-but-beyond-end", "range/empty", "range/i-aligned", "range/end-aligned",
 			"prev/in-last-word", "prev/after-skipped-zero-words", "prev/prev-word", "prev/none", "prev/found-but-before-i", "bitmap>=500-words", "bitmap>=65536-words", "bitmap=2^31-64-bits", "arguments-in-read-only-memory"},
 		Families: func(c *mon.Config) []mon.Family {
 			return []mon.Family{
@@ -40,6 +40,7 @@ func init() {
 				{Name: "all-ranges-zoo", Env: 2, N: c.Pick(1500, 300000), Run: c13AllZoo},
 				{Name: "sampled-long", Env: 10, N: c.Pick(20000, 4000000), Run: c13Long},
 				{Name: "huge-bitmap", N: 1, Run: c13Huge},
+				lrFamily(c13LongRun),
 			}
 		},
 	})
